@@ -203,24 +203,30 @@ func runC14(c *Ctx, w *World, r *Report) {
 				return
 			}
 			for _, m := range []ssa.Value{bo.X, bo.Y} {
-				tab, idx, ok := asElemLoad(m)
-				if !ok {
+				ms, ok := fa.MaskOf(m)
+				if !ok || (ms.Kind != "low" && ms.Kind != "high") {
 					continue
 				}
-				g, isG := tab.(*ssa.Global)
-				if !isG || !maskTables[g.Name()] {
-					continue
+				// the mask speaks about length n (N = n&63) or about n+1 (MaskUpto)
+				isLen := func(L Lin) bool {
+					v := fa.AtomValueOfLin(L)
+					if v == nil {
+						return false
+					}
+					x, j, ok := asLowMask(v)
+					if !ok || j != 6 {
+						return false
+					}
+					d := fa.Lin(x).Sub(want)
+					return d.IsConst() && d.K%64 == 0
 				}
-				x, j, ok := asLowMask(idx)
-				if !ok || j != 6 {
-					continue
-				}
-				if d := fa.Lin(x).Sub(want); !(d.IsConst() && d.K%64 == 0) {
+				exact, plus1 := isLen(ms.N), isLen(ms.N.Add(linConst(-1)))
+				if !exact && !plus1 {
 					continue
 				}
 				ntrim++
-				if g.Name() != "Mask" {
-					bad = fmt.Sprintf("the result is trimmed to the range length with %s at %s; a length n needs Mask[n]", g.Name(), w.InstrPos(ins))
+				if !(exact && ms.Kind == "low") {
+					bad = fmt.Sprintf("the result is trimmed to the range length with the %s side of bit %s (%s) at %s; a length n needs exactly the n low bits (Mask[n])", ms.Kind, ms.N.String(), ms.Via, w.InstrPos(ins))
 				}
 			}
 		})
@@ -248,12 +254,12 @@ func runC14(c *Ctx, w *World, r *Report) {
 		return nil, nil, false
 	}
 	maskIsWidth := func(fn *ssa.Function, m ssa.Value) string {
-		tab, idx, ok := asElemLoad(m)
-		if !ok || !isGlobal(tab, "bitmap", "Mask") {
-			return "value is not masked with bitmap.Mask[...]"
+		ms, ok := w.FA(fn).MaskOf(m)
+		if !ok || ms.Kind != "low" {
+			return "value is not masked with the low `width` bits (bitmap.Mask[w])"
 		}
-		if paramIndex(stripConv(idx)) != len(fn.Params)-1 {
-			return "mask is not indexed by the width parameter"
+		if idx := w.FA(fn).AtomValueOfLin(ms.N); idx == nil || paramIndex(stripConv(idx)) != len(fn.Params)-1 {
+			return "mask width is not the width parameter"
 		}
 		return ""
 	}
